@@ -80,6 +80,14 @@ for k in ks:
     caught = any(v["exit"] != 0 for v in chk.values())
     dst = f"/verif/seeded/{pid}-{k}"
     os.makedirs(dst, exist_ok=True)
+    history = ""
+    if os.path.exists(f"{dst}/meta.json"):
+        old = json.load(open(f"{dst}/meta.json"))
+        history = old.get("history", "")
+        if not old.get("caught") and caught:
+            history = (history + "; " if history else "") + "MISSED by the check as first built (quick and thorough exit 0); caught after the check was strengthened"
+        elif not old.get("caught") and not caught:
+            history = (history + "; " if history else "") + "missed again on re-run"
     shutil.copy(f"{out}/patch.diff", dst)
     shutil.copy(f"{out}/demo.diff", dst)
     rec = {"property": pid, "id": f"{pid}-{k}", "summary": meta.get("summary"),
@@ -88,7 +96,7 @@ for k in ks:
            "origin": "independent sub-agent given only the property text and a scratch worktree of /repo",
            "confirmed_by_integrator": dict(res, existing_tests_cmd=ex_cmd, demo_cmd=demo_cmd,
                                            worktree=f"{wt} (removed afterwards)", tool="orchestrate/seedrun.py"),
-           "check_result": chk, "caught": caught}
+           "check_result": chk, "caught": caught, "history": history}
     json.dump(rec, open(f"{dst}/meta.json", "w"), indent=1)
     print(f"{pid}-{k}: confirmed={res} caught={caught} "
           f"{[ (t, v['exit'], v['lines'][:1]) for t, v in chk.items()]}", flush=True)
